@@ -1133,6 +1133,17 @@ def oracle_c16(plan, world, cl, obs, mon):
                 and c["coord_after"] is not None and c["coord_after"][1] == "Ongoing":
             viol("transaction_still_open_at_coordinator_after_end_call", c,
                  coordinator=repr(c["coord_after"]))
+    # a commit that returned normally vouches for every send of its transaction: whatever
+    # error (abortable or fatal) failed one of them must have failed the commit as well
+    for r in obs["records"].values():
+        txn = r.txn
+        if r.fut is None or r.accept_seq is None or txn is None or txn.outcome != "committed":
+            continue
+        if not r.fut.done() or not r.ok:
+            world.violation("C16", "commit_returned_although_a_send_of_the_transaction_failed",
+                            dict(base, value=r.value.decode(), done=r.fut.done(),
+                                 error=repr(r.error)[:120], trace=trace))
+            break
     hard = fc in ("abortable", "fatal") and fault_seq is not None
     latent = hard  # the error is known to the producer but no call has surfaced it yet
     for c in calls:
